@@ -359,6 +359,21 @@ pub fn run_c10(tier: &str, seed: u64, model: &Model, corpus_lines: Vec<String>, 
         let c = MinCase { recs, w, m, threads, sched };
         run_one(&c, "random", &mut rep, &mut traces, &mut branching);
     }
+    // free-running contention: groups of identical reads, so that several workers meet the same minimiser for the
+    // first time together (a lost insert between a lookup and an insert only shows up here)
+    let rounds = if tier == "thorough" { 12 } else { 2 };
+    for _ in 0..rounds {
+        let mut recs: Vec<Vec<u8>> = Vec::new();
+        for _ in 0..100 {
+            let l = rng.range(120, 200) as usize;
+            let one = gen::clean_seq(&mut rng, l, gen::Flavor::Uniform);
+            for _ in 0..16 {
+                recs.push(one.clone());
+            }
+        }
+        let c = MinCase { recs, w: 20, m: 15, threads: 16, sched: "free".into() };
+        run_one(&c, "contention", &mut rep, &mut traces, &mut branching);
+    }
     // one large input (more than 1 MiB of bases, ~12000 records): batching / buffering thresholds
     {
         let n = if tier == "thorough" { 40_000 } else { 12_000 };
